@@ -98,6 +98,16 @@ def run(tier, seed, replay=None):
                              "additionalProperties": {"type": "string"}}]}
         doc = {"definitions": {"Hashy": s_, "User": {"type": "object", "properties": {"h": {"$ref": "#/definitions/Hashy"}}}}}
         base.append(("h%04d" % i, doc, {"struct_builder": bool(i % 2)}))
+    # pairs of documents that contain the textually identical composition over a DIFFERENT referenced definition: what one
+    # document produced must not depend on which documents the same process handled before it
+    for j, (base_a, base_b) in enumerate([({"first_name": {"type": "string"}}, {"second_flag": {"type": "boolean"}}),
+                                          ({"n": {"type": "integer"}}, {"n": {"type": "string"}, "m": {"type": "number"}})]):
+        for tag, bp in (("a", base_a), ("b", base_b)):
+            doc = {"definitions": {"Base": {"type": "object", "properties": bp},
+                                   "Derived": {"allOf": [{"$ref": "#/definitions/Base"},
+                                                         {"type": "object", "properties": {"extra": {"type": "integer"}}}]},
+                                   "Sib": {"$ref": "#/definitions/Base", "properties": {"own": {"type": "boolean"}}}}}
+            base.append(("leak%d%s" % (j, tag), doc, {}))
     opts = {"facts": False, "types": False, "has_impl": False, "hooks": False, "code": True}
     digests = {}   # cid -> {(k,p): (tokens_hash, sha(code))}
     unstable = set()
@@ -124,6 +134,13 @@ def run(tier, seed, replay=None):
                     unstable.add(cid)
                 digests.setdefault(cid, {})[(k, p)] = (res.get("tokens_hash"), util.sha(res.get("code", "")),
                                                       res.get("tokens_len"))
+    # one more pass in which every case has different predecessors inside its process: reversed order, two processes
+    rev_cases = [{"id": cid, "settings": st, "history": [{"op": "root", "schema": doc}], "opts": opts}
+                 for cid, doc, st in reversed(base) if cid not in skip]
+    res_rev = pipeline.Run(PROP, "reversed").vgen(rev_cases, shards=2)
+    for cid, res in res_rev.items():
+        if vgen.ingest_status(res) == "ok" and res.get("render") == "ok" and cid in digests:
+            digests[cid][("rev", 0)] = (res.get("tokens_hash"), util.sha(res.get("code", "")), res.get("tokens_len"))
     settings_of = {cid: st for cid, doc, st in base}
     doc_of = {cid: doc for cid, doc, st in base}
     for cid, d in digests.items():
@@ -141,7 +158,7 @@ def run(tier, seed, replay=None):
             rep.violation("rerender_differs", "to_stream() twice on one TypeSpace differs", {}, case=case)
             continue
         if len(vals) > 1:
-            byrun = {"k%dp%d" % kp: v[0] for kp, v in sorted(d.items())}
+            byrun = {"k%sp%s" % kp: v[0] for kp, v in sorted(d.items(), key=str)}
             rep.violation("output_differs", "digest differs across processes/permutations",
                           {"digests": byrun}, case=case)
             continue
